@@ -81,78 +81,122 @@ def expand_mutations(fb, f, hp, depth=0):
     return out
 
 
-def run_on(fb, chk, tag=""):
+def _tests_new_features(fb, f, m, t, bb):
+    """The value whose PROTOCOL_FEATURES bit decides ring enabling must be the features of THIS message: the
+    `features` parameter itself, or a field of self that was assigned from it before the test."""
+    r = t
+    while r[0] in ("ref", "deref", "cast"):
+        r = r[1]
+    if r[0] == "param":
+        return None if r[2] == "features" else "ring enabling is decided on parameter `%s`" % r[2]
+    base, fld = field_of(t)
+    if fld is None:
+        return "ring enabling is decided on %s (not on the features of this message)" % show(t)[:50]
+    from vlint.util import field_writes
+    dom = m.cfg.dominators()
+    # the switch that produced the fact: a dominator of bb whose operand mentions the field; the store must dominate it
+    tests = [d for d in dom.get(bb, ()) if f.blocks[d]["term"]["k"] == "switch"
+             and any(s_ == t or (s_[0] == "field" and s_[2] == fld) for s_ in subterms(m.sym.operand(f.blocks[d]["term"]["op"])))]
+    stores = [w for w in field_writes(f) if w["field"] == fld]
+    good = False
+    for w in stores:
+        v = m.sym.rvalue(w["rv"]) if "rv" in w else None
+        src_ok = v is not None and v[0] == "param" and v[2] == "features"
+        if src_ok and tests and all(w["bb"] in dom.get(d, ()) for d in tests):
+            good = True
+    if good:
+        return None
+    return ("ring enabling is decided on self.%s, which does not yet hold the features of this message when it is tested "
+            "(the previous negotiation decides)" % fld)
+
+
+def handler_views(fb):
+    """Control handlers with the daemon handler's private helpers inlined (all but the registration update), so that
+    the rules read the same shape whether a step lives in a helper or in the handler itself."""
     ch = daemon.control_handlers(fb)
     hp = daemon.handler_helpers(fb)
+    reg = daemon.registration_fn(fb)
+    names = sorted(n for n, h in hp.items() if h.key != reg.key and n not in ("new",))
+    return {name: fb.inl(f, inline_known=names) for name, f in ch.items()}, reg
+
+
+def _skippable_in_loop(cfg, bb):
+    """bb lies in a loop some iteration of which can avoid bb (a `continue` or a conditional around it)."""
+    loops = {}
+    for (tail, head) in cfg.back_edges():
+        body = loops.setdefault(head, {head})
+        body.add(tail)
+        work = [tail]
+        while work:
+            x = work.pop()
+            if x == head:
+                continue
+            for p in cfg.pred[x]:
+                if p not in body:
+                    body.add(p)
+                    work.append(p)
+    for head, body in loops.items():
+        if bb not in body or bb == head:
+            continue
+        outside = set(range(len(cfg.blocks))) - body
+        for s in cfg.succ[head]:
+            if s in body and s != bb and (s == head or head in cfg.reach(s, removed=outside | {bb})):
+                return True
+    return False
+
+
+def run_on(fb, chk, tag=""):
     try:
-        reg = daemon.registration_fn(fb)
+        ch, reg = handler_views(fb)
     except AnchorMissing as e:
         chk.anchor_missing("T3", tag + "registration function", str(e))
         return
     chk.fn_seen(reg)
     # ------------------------------------------------------------------ T1
     for name, f in sorted(ch.items()):
-        muts = expand_mutations(fb, f, hp)
-        want = EFFECTS.get(name, [])
+        muts = daemon.ring_calls(fb, f, daemon.STATE_MUTATORS)
+        want = list(EFFECTS.get(name, []))
+        if name in ("set_vring_kick", "set_vring_call"):
+            want.append(("set_queue_ready", "const:1"))
         m = must_of(fb, f)
         chk.fn_seen(f)
-        direct = [(g, bb, t, c, via) for (g, bb, t, c, via) in muts if not via]
-        got = []
-        for (g, bb, t, c, via) in direct:
-            mm = must_of(fb, g)
-            got.append((c["name"], describe_arg(mm.sym.arg_terms(bb)[1])))
+        got = [(c["name"], describe_arg(m.sym.arg_terms(bb)[1])) for (bb, t, c) in muts]
         key = tag + name
         if not want and not muts:
             continue
         probs = []
         if sorted(got) != sorted(want):
             probs.append("performs %s; the protocol prescribes %s" % (sorted(got), sorted(want)))
-        # loops over all rings where prescribed
+        # loops over all rings where prescribed, and no ring is skipped
         if name in ("reset_device", "set_features"):
-            for (g, bb, t, c, via) in direct:
+            for (bb, t, c) in muts:
                 if not m.cfg.in_loop(bb) or "iter(deref(&*self.vrings))" not in show(m.sym.arg_terms(bb)[0]):
                     probs.append("%s is not applied to every ring" % c["name"])
+                elif _skippable_in_loop(m.cfg, bb):
+                    probs.append("%s is skipped for some rings (an iteration of the loop over all rings can avoid it)" % c["name"])
         if name == "set_features":
-            for (g, bb, t, c, via) in direct:
+            for (bb, t, c) in muts:
                 gs = [a for a in m.atoms_at(bb) if a[0] == "cmp" and a[1] == "Eq" and const_eval(fb, m.sym, a[3]) == 0
                       and a[2][0] == "bin" and a[2][1] == "BitAnd" and const_eval(fb, m.sym, a[2][3]) == wire.VIRTIO_FEATURES["PROTOCOL_FEATURES"]]
                 if not gs:
                     probs.append("rings are enabled without the fact `features & PROTOCOL_FEATURES == 0`")
-        # start-on-kick: the helper path sets ready := true only under (not started && kick present)
-        via_muts = [(g, bb, t, c, via) for (g, bb, t, c, via) in muts if via]
+                for a in gs:
+                    why = _tests_new_features(fb, f, m, a[2][2], bb)
+                    if why:
+                        probs.append(why)
+        # start-on-kick: ready := true only under (not started && kick present)
         if name in ("set_vring_kick", "set_vring_call"):
-            starts = [(g, bb, t, c, via) for (g, bb, t, c, via) in via_muts if c["name"] == "set_queue_ready"]
-            if len(starts) != 1:
-                probs.append("expected one conditional start (set_queue_ready(true)), found %d" % len(starts))
-            for (g, bb, t, c, via) in starts:
-                mm = must_of(fb, g)
-                v = describe_arg(mm.sym.arg_terms(bb)[1])
-                cf, cbb = via[0]
-                guard = any(a[0] == "true" and a[1][0] == "call" and a[1][1] == "vring_needs_init" for a in must_of(fb, cf).atoms_at(cbb))
-                if v != "const:1" or not guard:
-                    probs.append("ring started with %s, guard present: %s" % (v, guard))
-        else:
-            extra = [(c["name"]) for (g, bb, t, c, via) in via_muts]
-            if extra:
-                probs.append("additional mutations through helpers: %s" % extra)
+            starts = [(bb, t, c) for (bb, t, c) in muts if c["name"] == "set_queue_ready"]
+            for (bb, t, c) in starts:
+                atoms = m.atoms_at(bb)
+                nr = any(a[0] == "false" and a[1][0] == "call" and a[1][1] == "ready" for a in atoms)
+                kp = any(a[0] == "ok" and "get_kick" in show(a[1]) for a in atoms)
+                if not (nr and kp):
+                    probs.append("ring started without the facts `not started` (%s) and `kick descriptor present` (%s)" % (nr, kp))
         chk.check(not probs, "T1", key, "effects %s" % sorted(got), "%s: %s" % (f.short, "; ".join(probs)), f.loc())
     for name in EFFECTS:
         if name not in ch:
             chk.anchor_missing("T1", tag + name)
-    # the start predicate: not started && kick present
-    ni = hp.get("vring_needs_init")
-    if ni is None:
-        chk.anchor_missing("T1", tag + "start predicate")
-    else:
-        summ = Summariser(fb, no_inline=lambda g: True)
-        outs, sym = summ.summarise(ni)
-        ok = False
-        for o in outs:
-            if o.ret == ("bool", True):
-                nr = any(a[0] == "false" and a[1][0] == "call" and a[1][1] == "ready" for a in o.atoms)
-                kp = any(a[0] == "ok" and "get_kick" in show(a[1]) for a in o.atoms)
-                ok = nr and kp
-        chk.check(ok, "T1", tag + "start-predicate", "start iff !queue.ready() && kick.is_some()", "start predicate is not `not started && kick present`", ni.loc())
     # GET_VRING_BASE result
     f = ch.get("get_vring_base")
     if f:
@@ -165,50 +209,34 @@ def run_on(fb, chk, tag=""):
     for name, f in sorted(ch.items()):
         m = must_of(fb, f)
         cfg = m.cfg
-        for (g, bb, t, c, via) in expand_mutations(fb, f, hp):
-            if c["name"] not in daemon.REG_INPUTS:
-                continue
-            gm = must_of(fb, g)
-            arg = describe_arg(gm.sym.arg_terms(bb)[1])
+        dom = cfg.dominators()
+        muts = [(bb, t, c) for (bb, t, c) in daemon.ring_calls(fb, f, daemon.STATE_MUTATORS) if c["name"] in daemon.REG_INPUTS]
+        for (bb, t, c) in muts:
+            arg = describe_arg(m.sym.arg_terms(bb)[1])
             key = "%s%s:%s(%s)" % (tag, name, c["name"], arg)
-            if c["name"] == "set_kick" and arg == "none":
-                chk.ok("T2", key, "exempt: dropping the descriptor closes it, which removes it from the epoll set (unregistered first)")
-                continue
-            # registration update on the same ring post-dominates the mutation within its function
-            gcfg = gm.cfg
-            ring = daemon.ring_of(gm, bb)
+            ring = daemon.ring_of(m, bb)
             ups = []
-            for ub, ut, uc in sites(g, name=reg.name):
-                ur = gm.sym.arg_terms(ub)[1]
+            for ub, ut, uc in sites(f, name=reg.name):
+                ur = m.sym.arg_terms(ub)[1]
                 while ur[0] in ("ref", "deref"):
                     ur = ur[1]
                 if ur == ring:
                     ups.append(ub)
-            # helpers that always perform the update for the ring they are given
-            for hname, hf in hp.items():
-                if hf.key == reg.key:
-                    continue
-                hm = must_of(fb, hf)
-                hups = [ub for ub, ut, uc in sites(hf, name=reg.name)
-                        if root_of(hm.sym.arg_terms(ub)[1])[0] == "param"]
-                if hups and hm.cfg.all_paths_pass_through(0, hm.cfg.returns, set(hups)):
-                    for ub, ut, uc in sites(g, name=hname, self_adt=daemon.HANDLER_ADT):
-                        ur = gm.sym.arg_terms(ub)[1]
-                        while ur[0] in ("ref", "deref"):
-                            ur = ur[1]
-                        if ur == ring:
-                            ups.append(ub)
-            # Ok-returning exits only
-            ok_returns = gcfg.returns
-            ok = bool(ups) and gcfg.all_paths_pass_through(gcfg.succ[bb][0] if gcfg.succ[bb] else bb, ok_returns, set(ups))
-            if not ok and ups:
-                # paths that skip the update must be error returns
-                rv = gm.sym.local(0)
-                ok = False
+            if c["name"] == "set_kick" and arg == "none":
+                # dropping the descriptor closes it: the worker must have been told to stop polling it first, i.e. the
+                # registration update runs after the ring was stopped/disabled and before the descriptor goes away
+                stops = [mb for (mb, mt, mc) in muts if mb != bb and daemon.ring_of(m, mb) == ring and mb in dom.get(bb, ())]
+                before = [ub for ub in ups if ub in dom.get(bb, ()) and any(mb in dom.get(ub, ()) for mb in stops)]
+                chk.check(bool(before), "T2", key, "unregistered (after the stop) before the descriptor is dropped",
+                          "%s drops the ring's kick descriptor without first updating the epoll registration for the stopped ring: the "
+                          "registration update finds no descriptor to delete, and the worker's epoll set keeps the (still open on the "
+                          "frontend side) event source of a stopped ring" % f.short, f.loc(t["line"]))
+                continue
+            ok = bool(ups) and cfg.all_paths_pass_through(cfg.succ[bb][0] if cfg.succ[bb] else bb, cfg.returns, set(ups))
             chk.check(ok, "T2", key, "followed by the registration update for the same ring on every path",
                       "%s changes %s (%s) and can return without updating the ring's epoll registration: the worker keeps polling the old "
                       "descriptor set (a kick on a newly installed descriptor of a started ring is never dispatched)"
-                      % (f.short if g is f else g.short, c["name"], arg), g.loc(t["line"]))
+                      % (f.short, c["name"], arg), f.loc(t["line"]))
     # ------------------------------------------------------------------ T3 / T5
     rm = must_of(fb, reg)
     adds = sites(reg, name="register_event")
